@@ -21,6 +21,7 @@ control thread (`VhostUserHandler`), labels `send m` (a message arrives, only wh
 | SET_VRING_ENABLE b, RESET_DEVICE (b = 0) | `set_enabled(b)` · `update_vring_registration` · reply |
 | GET_VRING_BASE | `set_queue_ready(false)` · `update_vring_registration` · `set_kick(None); set_call(None)` · reply |
 | SET_VRING_KICK(fresh fd) | (fix-c11-rekick: unregister the current fd) `set_kick(fd)` · [`set_queue_ready(true)` if `vring_needs_init`] · `update_vring_registration` · reply |
+| SET_VRING_KICK(no-descriptor flag) | (unregister the current fd) `set_kick(None)` · [`vring_needs_init` = `!ready && kick.is_some()` is false: nothing; with the *mutated* guard `!ready` (`Cfg.nofdStarts`): `set_queue_ready(true)`] · `update_vring_registration` (no descriptor: nothing to add or delete) · reply |
 
 guest: label `kick d` adds one to the counter of descriptor `d`.
 
@@ -30,7 +31,9 @@ other, which is what `step` expresses.  epoll is level-triggered; `consume` zero
 registered descriptor (its current kick descriptor — the invariant `reg_is_kick` below), so a batch holds at most one event
 of the ring; staleness of "events returned by one wait" is the delay between `worker.woken` and the later segments.
 
-`Cfg` selects the pinned code (`all false`) or the repairs.  The fields `rdStale`, `chkStale`, `clean`, `glog` are ghost
+`Cfg` selects the pinned code (`all false`) or the repairs; `nofdStarts` is not a repair but a *mutation* kept for the
+counterexample `Props.C12.nofd_kick_marks_ready_counterexample`: the guard of `set_vring_kick` weakened from
+`vring_needs_init` to `!ready` (false in the pinned and in the repaired code).  The fields `rdStale`, `chkStale`, `clean`, `glog` are ghost
 state for the theorems; no non-ghost component depends on them.
 -/
 namespace Model.Worker
@@ -40,10 +43,13 @@ structure Cfg where
   fixLost : Bool        -- fix-c12-lost-kick
   fixEagain : Bool      -- fix-c12-stale-eagain
   fixStopped : Bool     -- fix-c12-stopped-dispatch
+  nofdStarts : Bool     -- MUTATION (not in the tree): `set_vring_kick` initialises the ring on `!ready` alone
 deriving DecidableEq, Repr
 
-def Cfg.pinned : Cfg := ⟨false, false, false⟩
-def Cfg.repaired : Cfg := ⟨true, true, true⟩
+def Cfg.pinned : Cfg := ⟨false, false, false, false⟩
+def Cfg.repaired : Cfg := ⟨true, true, true, false⟩
+/-- the repaired code with the guard of `set_vring_kick` mutated -/
+def Cfg.nofdMutant : Cfg := ⟨true, true, true, true⟩
 
 inductive WPc where
   | wait | woken | checked | toDispatch | dead
@@ -169,6 +175,11 @@ def cStep (s : St) : Option St :=
     | .restart, 1 => some { s with ready := true, cpc := .inMsg m 2 }
     | .restart, 2 => some { epollUpdate s with cpc := .inMsg m 3 }
     | .restart, 3 => some (reply s m)
+    | .nofd, 0 =>
+      some { unregKick s with kick := none, cpc := .inMsg m (if s.cfg.nofdStarts && !s.ready then 1 else 2) }
+    | .nofd, 1 => some { s with ready := true, cpc := .inMsg m 2 }
+    | .nofd, 2 => some { epollUpdate s with cpc := .inMsg m 3 }
+    | .nofd, 3 => some (reply s m)
     | _, _ => none
 
 def step (s : St) : Lbl → Option St
